@@ -22,10 +22,38 @@ type Leaf struct {
 
 var layoutCache = map[string][]Leaf{}
 
-func typeKey(t types.Type) string { return types.TypeString(t, nil) }
+func typeKey(t types.Type) string { return canonBasic(types.TypeString(t, nil)) }
 
 func shortType(t types.Type) string {
-	return types.TypeString(t, func(p *types.Package) string { return p.Name() })
+	return canonBasic(types.TypeString(t, func(p *types.Package) string { return p.Name() }))
+}
+
+// canonBasic rewrites the alias names byte/rune to uint8/int32 (unqualified occurrences only),
+// so that []byte and []uint8 share one heap.
+func canonBasic(s string) string {
+	if !strings.Contains(s, "byte") && !strings.Contains(s, "rune") {
+		return s
+	}
+	isId := func(c byte) bool {
+		return c == '_' || c == '.' || c >= 'a' && c <= 'z' || c >= 'A' && c <= 'Z' || c >= '0' && c <= '9'
+	}
+	var b strings.Builder
+	for i := 0; i < len(s); {
+		rep := ""
+		for _, pr := range [][2]string{{"byte", "uint8"}, {"rune", "int32"}} {
+			if strings.HasPrefix(s[i:], pr[0]) && (i == 0 || !isId(s[i-1])) && (i+4 == len(s) || !isId(s[i+4])) {
+				rep = pr[1]
+			}
+		}
+		if rep != "" {
+			b.WriteString(rep)
+			i += 4
+			continue
+		}
+		b.WriteByte(s[i])
+		i++
+	}
+	return b.String()
 }
 
 // layout returns the component leaves of t.
@@ -114,6 +142,7 @@ type Val struct {
 	P   *Place      // for pointers: where it points (Go-side, structural)
 	Bk  *Place      // for slices backed by an array inside a struct/cell (array place)
 	Clo *Closure    // for function values known to be a closure/function
+	Lk  *Place      // for *sync.Cond / sync.Locker values: the mutex they are bound to (from a `cond F on M` declaration)
 }
 
 type Closure struct {
